@@ -34,10 +34,10 @@ ENTRY = dict(
     technique="Lean 4 proof (inductive invariants over all schedules of a small-step model, kernel-checked witnesses) + "
               "set-valued lock-step replay of real engine runs + reference predicate on recorded histories",
     lean_modules=["Bpmn.Props.C10", "Bpmn.Props.C10Current"],
-    families=["c10", "c10noexc"],
+    families=["c10", "c10noexc", "c10two"],
     exhaustive=True,
     multi_seed=False,
-    rule=("c10noexc: boundary events WITHOUT an exception flow (task / sub-process host, interrupting / non-interrupting, one or two of them), scripts of deliveries before / while / after the host waits — the normal flow is taken only by the host\'s own completion: never before the host was answered, at most once; c10: process start -> P -> H -> N -> end with boundary events B1[,B2] on H leading to X1[,X2] -> own end events "
+    rule=("c10two: two tokens waiting in one host activity at the same time (a parallel split into the task, directly or through a task each), one matching event while both wait — the exception flow continues once, the normal flow once per answer; c10noexc: boundary events WITHOUT an exception flow (task / sub-process host, interrupting / non-interrupting, one or two of them), scripts of deliveries before / while / after the host waits — the normal flow is taken only by the host\'s own completion: never before the host was answered, at most once; c10: process start -> P -> H -> N -> end with boundary events B1[,B2] on H leading to X1[,X2] -> own end events "
           "(H: task, or sub-process containing task HI; kinds i / n / ii / in / ni / nn); schedules: every sequence over "
           "{d1[,d2], a} of length <= 4 with at most one answer, P answered first or after the first delivery (event before "
           "activation); quick tier: all up to length 3, a third of length 4 for two boundary events; modes wait "
